@@ -301,6 +301,9 @@ class SyncInterpreter(BaseInterpreter[TContext, TEvent]):
         #      before it noticed the new status is left behind.
 
         for actor_id, actor in list(self._actors.items()):
+            # 🌐 The registry lives on the root: a stopped actor's children
+            #    would otherwise stay addressable by systemId forever.
+            self._unregister_from_system(actor)
             try:
                 actor.stop()
             finally:
